@@ -110,6 +110,22 @@ def run(ctx, prog):
         in_fail = all(d in (b.reach(starts) | set(starts)) for d in dec)
         ctx.inst('C14.R2', 'rpc ' + h, 'failed insert of a new id decrements by 1', not bad and args_ok and in_fail and bool(ae),
                  'uncompensated exit reachable: %s; decrement(1): %s; only on the failure edge: %s' % (bool(bad), args_ok, in_fail))
+        # ... and the slot counted by enforce_vector_quota is still owed to somebody between the count and the engine call: from the success edge of the quota check
+        # every path to a response / the next stream item passes engine.insert (whose failure edge gives the slot back, above) or the decrement; an early refusal
+        # placed in that window (a late validation, a limit on the assembled metadata) keeps the tenant's count one above its live documents for good
+        q = b.calls_to('KyroDBServiceImpl::enforce_vector_quota')
+        starts_q = [e[1] for c in q for e in flow.success_edges(b, c)]
+        cut_q = set(c.bb for c in ins) | set(dec)
+        r_q = b.reach(starts_q, avoid_blocks=cut_q, avoid_edges=ae) | (set(starts_q) - cut_q)
+        bad_q = [x for x in exits if x in r_q]
+        wit_q = rt.path_witness(b, rt.find_path(b, starts_q, [bad_q[0]], avoid_blocks=cut_q, avoid_edges=ae) or []) if bad_q else []
+        # the witness is shown from the block that builds the refusal (the first Err-producing block of the path), not from the bookkeeping in front of it
+        errs_q = flow.err_blocks(b)
+        first_err = next((w for w in wit_q if int(w.split(' ')[0][2:]) in errs_q), None)
+        ctx.inst('C14.R2', 'rpc ' + h, 'a counted slot reaches engine.insert or is given back: no exit in between', bool(q) and bool(starts_q) and not bad_q,
+                 ('between the successful enforce_vector_quota at %s and engine.insert at %s a path leaves the handler%s without giving the slot back: %s' % (
+                     q[0].loc, ins[0].loc, ' (refusal built at %s)' % first_err if first_err else '', wit_q[-5:])) if bad_q else
+                 'every path from the quota check passes engine.insert (already_exists edge excepted)')
     b = server.handler(ctx, 'C14.R2', 'bulk_load_hnsw', 'KyroDBServiceImpl::tenant_context')
     ov = flow.Origin(b, stop_at_vars=True)
     loads = b.calls_to('TieredEngine::bulk_load_cold_tier')
@@ -178,6 +194,16 @@ def run(ctx, prog):
         r = b.reach([0], avoid_edges=s_e)
         ctx.inst('C14.R2', 'rpc bulk_load_hnsw', 'reservation #%d precedes its load, refusal propagated' % k, use == 'propagated' and bool(nxt),
                  'reserve result %s; a bulk load follows its success edge: %s' % (use, bool(nxt)))
+        # same window for the batch reservation: from its success edge every path to a response / the next stream item passes the load (both outcomes release, above)
+        # or a release of the reservation
+        starts_r = [e[1] for e in s_e]
+        cut_r = set(x.bb for x in loads) | set(x.bb for x in rel)
+        exits_r = set(b.return_blocks()) | set(x.bb for x in b.calls if x.is_('re:Streaming::message$'))
+        r_r = b.reach(starts_r, avoid_blocks=cut_r) | (set(starts_r) - cut_r)
+        bad_r = [x for x in exits_r if x in r_r]
+        ctx.inst('C14.R2', 'rpc bulk_load_hnsw', 'reservation #%d reaches its load or is released: no exit in between' % k, bool(starts_r) and not bad_r,
+                 ('between the successful reserve_tenant_vectors at %s and the load a path leaves without releasing: %s' % (
+                     c.loc, rt.path_witness(b, rt.find_path(b, starts_r, [bad_r[0]], avoid_blocks=cut_r) or [])[-5:])) if bad_r else 'every path from the reservation passes bulk_load_cold_tier')
 
     ctx.rule('C14.R3', 'decrement by reported count: delete decrements 1 only on the `existed` edge of the engine result; '
                        'batch_delete decrements by the count the engine returned')
